@@ -95,7 +95,7 @@ Lemma spec_map_inj v sz o : lay_ok (lay v) sz -> dom_op o v = true ->
   inj_on (spec_sz o sz) (spec_map o sz).
 Proof.
   intros Hok Hd. destruct sz as [|n r]; [rewrite spec_sz_nil; apply inj_on_nil|].
-  destruct o as [k|a b|a b s|s|k|k| | | | | |k|c| | |args|k|a b]; cbn [spec_sz spec_map].
+  destruct o as [k|a b|a b s|s|k|k| | | | | |k|c| | |args|k|a b|is]; cbn [spec_sz spec_map].
   - (* index *) intros i j _ _ E. injection E as E. exact E.
   - (* sliced *) apply (inj_head _ _ (fun x => a + x)). intros; lia.
   - (* sliced with stride *)
@@ -126,6 +126,7 @@ Proof.
   - (* call syntax *) apply inj_paren.
   - (* reindexed *) intros i j _ _ E. exact E.
   - (* blocked *) apply (inj_head _ _ (fun x => a + x)). intros; lia.
+  - (* reindexed(i, j, ...) *) intros i j _ _ E. exact E.
 Qed.
 
 (* ---- row-major positions ---- *)
